@@ -617,7 +617,7 @@ func runLint(which string) {
 		}
 	case "L19":
 		sites, hits = montgomeryLimbReads(fns)
-	case "SCAN", "ABS", "ZEROUSE", "ARRIDX", "WIDTH", "SUBALIAS", "ASMBOUNDS", "DEAD":
+	case "SCAN", "ABS", "ZEROUSE", "ARRIDX", "WIDTH", "SUBALIAS", "ASMBOUNDS", "DEAD", "RANGEOFF", "SHAREDFIELD", "STALECAP", "CHUNKREM":
 		registerScanProgram(p)
 		re := regexp.MustCompile(os.Getenv("GCV_FUNCS"))
 		for _, fn := range fns {
@@ -626,7 +626,15 @@ func runLint(which string) {
 			}
 			var n int
 			var h []Finding
-			if which == "SCAN" {
+			if which == "CHUNKREM" {
+				n, h = chunkRemainderDropped(p, fn)
+			} else if which == "RANGEOFF" {
+				n, h = rangeOffsetMisuse(p, fn)
+			} else if which == "SHAREDFIELD" {
+				n, h = sharedFieldStorage(p, fn)
+			} else if which == "STALECAP" {
+				n, h = staleCapacityReslices(p, fn)
+			} else if which == "SCAN" {
 				n, h = scanLoopBounds(p, fn)
 			} else if which == "SUBALIAS" {
 				if fn.Parent() == nil && fn.Object() != nil && fn.Object().Exported() {
@@ -1322,4 +1330,46 @@ func continueSkipsCounter(p *Program) (int, []string) {
 		}
 	}
 	return loops, out
+}
+
+// indexLints adds, for the packages of a property, the two index / storage deviance rules that
+// have no instance on the reference tree (expected count zero; the scanned-site count is the
+// positive control): RANGE-OFFSET and SHARED-FIELD-STORAGE.
+func indexLints(c *Ctx, p *Program, pkgPats ...string) {
+	fns := libFuncs(p, pkgPats...)
+	rule := c.Prop + ".rangeidx"
+	c.Rule(rule, "RANGE-OFFSET: a loop `for i := range s[k:]` with k != 0 never indexes the base slice s with the bare loop index (the index counts from the start of the sub-slice: s[i] visits the first k elements again and never the last k)", 0)
+	n, total := 0, 0
+	var hits []Finding
+	for _, fn := range fns {
+		k, h := rangeOffsetMisuse(p, fn)
+		n += k
+		total++
+		hits = append(hits, h...)
+	}
+	c.Instance(rule, total)
+	reportFindings(c, p, rule, nil, hits, "")
+	c.Ob(rule, "-", "-", "functions-scanned", "-", total > 0, "no function of the property's packages was scanned")
+	rule2 := c.Prop + ".sharedfield"
+	c.Rule(rule2, "SHARED-FIELD-STORAGE: no function stores one and the same slice value into two different fields of one object (the fields would share a backing array: an in-place update of one — copy, append(f[:0], ...) — silently updates the other)", 0)
+	var hits2 []Finding
+	m := 0
+	for _, fn := range fns {
+		k, h := sharedFieldStorage(p, fn)
+		m += k
+		hits2 = append(hits2, h...)
+	}
+	c.Instance(rule2, m)
+	reportFindings(c, p, rule2, nil, hits2, "")
+	c.Ob(rule2, "-", "-", "field-stores-scanned", "-", true, "")
+	rule3 := c.Prop + ".chunkrem"
+	c.Rule(rule3, "CHUNK-REMAINDER: a loop that starts one goroutine per chunk, runs n/size times (floor division) and rebuilds positions as k*size treats the remainder somewhere (n % size, a ceiling division, a clamp of the end position against n, a tail slice): otherwise the last partial chunk is never processed when n is not a multiple of size", 0)
+	var hits3 []Finding
+	for _, fn := range fns {
+		_, h := chunkRemainderDropped(p, fn)
+		hits3 = append(hits3, h...)
+	}
+	c.Instance(rule3, total)
+	reportFindings(c, p, rule3, nil, hits3, "")
+	c.Ob(rule3, "-", "-", "functions-scanned", "-", total > 0, "no function of the property's packages was scanned")
 }
